@@ -173,6 +173,32 @@ def run(ck):
     lat.sort(reverse=True)
     for l in lat[:3]:
         ck.sample({"shape": l[2], "jit": l[3], "latency_ms": round(l[0], 2), "dispatches_after_interrupt": l[1]})
+    # ---- the same shapes running on a native thread, interrupted from the script with (thread-interrupt t)
+    tcases, tmeta = [], []
+    names = list(SHAPES) if not quick else ck.rng.sample(list(SHAPES), 8)
+    for name in names:
+        if "call/cc" in SHAPES[name] or "callcc" in name:
+            continue
+        tcases.append(list(SETUP) + ["(define c17-t (spawn-native-thread (lambda () %s)))" % SHAPES[name],
+                                     "(let c17-w ([i 0]) (if (< i 20000) (c17-w (+ i 1)) 'waited))",
+                                     "(thread-interrupt c17-t)",
+                                     "(with-handler (lambda (e) 'interrupted) (begin (thread-join! c17-t) 'returned))"] + list(PROBE))
+        tmeta.append(name)
+    for jit in (True, False):
+        tres = ck.eval_cases(tcases, fresh=True, env=({} if jit else {"STEEL_JIT": "false"}), batch=4, timeout_per_batch=90)
+        for name, units, r in zip(tmeta, tcases, tres):
+            ck.cov["evaluations"] += 1
+            k = len(SETUP) + 3
+            got = r[k] if r and len(r) > k else (r[-1] if r else {"missing": 1})
+            val = (got.get("ok") or [json.dumps(got)[:100]])[-1] if isinstance(got, dict) else str(got)
+            probes = [(x.get("ok") or [json.dumps(x)])[-1] for x in (r[k + 1:k + 1 + len(PROBE)] if r else [])]
+            if val != "'\"interrupted\"" or probes != PROBE_EXPECT:
+                ck.failing_input("%s on a native thread (JIT %s): (thread-interrupt t) then (thread-join! t) gave %s, probes %s"
+                                 % (name, "on" if jit else "off", val, probes),
+                                 {"shape": name, "jit": jit, "units": units, "outcome": val, "kind": "thread-interrupt"}, tag="tintr")
+            else:
+                ok_shapes.add(("thread:" + name, jit))
+    ck.cov["thread_interrupt_shapes"] = len(tmeta)
     ck.cov["max_latency_ms"] = round(lat[0][0], 2) if lat else None
     ck.cov["max_dispatches_after_interrupt"] = max([l[1] for l in lat]) if lat else None
     ck.cov["distinct_nontrivial"] = len(ok_shapes)
